@@ -32,6 +32,7 @@ props! {
     c14 => "C14",
     c16 => "C16",
     c17 => "C17",
+    c18 => "C18",
     c19 => "C19",
     c20 => "C20",
 }
@@ -39,6 +40,7 @@ props! {
 /// property-specific child-process sub-commands
 pub fn helper(cmd: &str, args: &[String]) -> Option<i32> {
     match cmd {
+        "c18-child" => Some(c18::child(args.first().map(|s| s.as_str()).unwrap_or("[]"))),
         // development aid: print the reference model's view of a TZif file (validated against CPython's zoneinfo)
         "zone-model-dump" => {
             let bytes = std::fs::read(&args[0]).ok()?;
